@@ -1,6 +1,7 @@
 /- driver ops for property C03 (model side of the correspondence) -/
 import Rsa.Core.Wire
 import Rsa.Core.Compare
+import Rsa.Core.C03Passes
 
 open Lean Rsa.Wire Rsa.Compare
 
@@ -20,27 +21,37 @@ def asSigma {β} (f : Json → R β) (j : Json) : R (SigmaK β) :=
 def eighF : List (List Float) → List Float × List (List Float) := jacobiEigh 12
 
 /-- measures evaluated in IEEE doubles -/
-def measureF (method : String) (n : Nat) (V : List (List Float)) (x y : List Float) : R Json :=
+def measureF (method : String) (n : Nat) (sg : SigmaK Float) (V : List (List Float))
+    (x y : List Float) : R Json :=
   match method with
-  | "cosine" => pure (ofFloat (cosine x y))
-  | "corr" => pure (ofFloat (corr x y))
-  | "spearman" => pure (ofFloat (spearman x y))
+  -- as coded (round 3): every scalar step / guard / dispatch through the regenerated leaves
+  | "cosine" => pure (ofFloat (cosineCoded x y))
+  | "corr" => pure (ofFloat (corrCoded x y))
+  | "spearman" => pure (ofFloat (spearmanCoded x y))
   | "kendall" | "tau-b" => pure (ofOpt ofFloat (tauB x y))
-  | "tau-a" => pure (ofFloat (tauA x y))
+  | "tau-a" => pure (ofFloat (tauATwoPass kendallDisRef x y))
   | "rho-a" => pure (ofFloat (rhoACoded x y))
-  | "cosine_cov" => pure (ofOpt ofFloat (whitenedCos V x y))
-  | "corr_cov" => pure (ofOpt ofFloat (whitenedCorr V x y))
-  | "cosine_cov_fast" => pure (ofFloat (whitenedCosFastCoded n x y))
-  | "corr_cov_fast" => pure (ofFloat (whitenedCosFastCoded n (center x) (center y)))
-  | "bures" => pure (ofFloat (buresSim eighF (kernelRows n x) (kernelRows n y)))
-  | "bures_metric" => pure (ofFloat (sqBuresMetric eighF (kernelRows n x) (kernelRows n y)))
+  | "cosine_cov" => pure (ofOpt ofFloat (whitenedCosDispatch sg x y))
+  | "corr_cov" => pure (ofOpt ofFloat (whitenedCosDispatch sg (center x) (center y)))
+  | "bures" => pure (ofFloat (buresSimCoded eighF (buresKernelRows n x) (buresKernelRows n y)))
+  | "bures_metric" => pure (ofFloat (sqBuresMetricCoded eighF (buresKernelRows n x) (buresKernelRows n y)))
+  -- the definitions the theorems speak about (model-internal cross-check)
+  | "cosine_spec" => pure (ofFloat (cosine x y))
+  | "corr_spec" => pure (ofFloat (corr x y))
+  | "spearman_spec" => pure (ofFloat (spearman x y))
+  | "tau-a_spec" => pure (ofFloat (tauA x y))
+  | "cosine_cov_spec" => pure (ofOpt ofFloat (whitenedCos V x y))
+  | "corr_cov_spec" => pure (ofOpt ofFloat (whitenedCorr V x y))
+  | "bures_spec" => pure (ofFloat (buresSim eighF (kernelRows n x) (kernelRows n y)))
+  | "bures_metric_spec" => pure (ofFloat (sqBuresMetric eighF (kernelRows n x) (kernelRows n y)))
   | m => throw s!"unknown method {m}"
 
 /-- measures evaluated exactly -/
 def measureQ (method : String) (x y : List Rat) : R Json :=
   match method with
-  | "tau-a" => pure (ofRat (tauA x y))
-  | "tau-a-spec" => pure (ofRat (tauASpec x y))
+  | "tau-a" => pure (ofRat (tauATwoPass kendallDisRef x y))
+  | "tau-a_spec" => pure (ofRat (tauASpec x y))
+  | "rho-a_spec" => pure (ofRat (rhoA x y))
   | "rho-a" => pure (ofRat (rhoACoded x y))
   | m => throw s!"method {m} is not exact"
 
@@ -58,8 +69,8 @@ def compareOp (j : Json) : R Json := do
     let xs ← fld j "x" >>= asList (asList asFloat)
     let ys ← fld j "y" >>= asList (asList asFloat)
     let sg ← asSigma asFloat (fldD j "sigma" Json.null)
-    let V := if method = "cosine_cov" ∨ method = "corr_cov" then getV n sg else []
-    let rows ← (compareAll (measureF method n V) xs ys).mapM (fun r => r.mapM id)
+    let V := if method = "cosine_cov_spec" ∨ method = "corr_cov_spec" then getV n sg else []
+    let rows ← (compareAll (measureF method n sg V) xs ys).mapM (fun r => r.mapM id)
     pure (ofList (ofList id) rows)
 
 /-- argument checks of `compare`: "ok" or the exception the code raises -/
@@ -73,7 +84,7 @@ def acceptsOp (j : Json) : R Json := do
 def getvOp (j : Json) : R Json := do
   let n ← fld j "n" >>= asNat
   let sg ← asSigma asRat (fldD j "sigma" Json.null)
-  pure (obj [("coded", ofList (ofList ofRat) (getV n sg)),
+  pure (obj [("coded", ofList (ofList ofRat) (getVCoded n sg)),
              ("spec", ofList (ofList ofRat) (vSpec n sg.entry))])
 
 /-- tie-averaged ranks, exactly -/
@@ -107,6 +118,30 @@ def kernelOp (j : Json) : R Json := do
   let x ← fld j "x" >>= asList asRat
   pure (ofList (ofList ofRat) (kernelRows n x))
 
+/-- the two `_sort_and_rank` passes of `_tau_a`, its tie counts and its value, exactly -/
+def passesOp (j : Json) : R Json := do
+  let x ← fld j "x" >>= asList asRat
+  let y ← fld j "y" >>= asList asRat
+  let p1 := sortAndRank x y
+  let xy := tauAPasses x y
+  pure (obj [("x1", ofList ofRat p1.1), ("y1", ofList ofNat p1.2),
+             ("x2", ofList ofNat xy.1), ("y2", ofList ofNat xy.2),
+             ("xtie", ofNat (bincountTies xy.1)), ("ytie", ofNat (bincountTies xy.2)),
+             ("ntie", ofNat (runTies (xy.1.zip xy.2))), ("dis", ofNat (kendallDisRef xy.1 xy.2)),
+             ("tau", ofRat (tauATwoPass kendallDisRef x y)), ("spec", ofRat (tauASpec x y)),
+             ("n_from_len", ofNat (Rsa.Gen.C03.nFromLength x.length)),
+             ("n_from_reduced", ofNat (Rsa.Gen.C03.nFromReduced x.length))])
+
+/-- `compare_neg_riemannian_distance` up to the call of `_riemannian_distance`, exactly -/
+def riemOp (j : Json) : R Json := do
+  let n ← fld j "n" >>= asNat
+  let x ← fld j "x" >>= asList asRat
+  let sg ← asSigma asRat (fldD j "sigma" Json.null)
+  pure (obj [("vec_g", ofList ofRat (riemVecG n x)),
+             ("g", ofList (ofList ofRat) (riemGRows n x)),
+             ("g_spec", ofList (ofList ofRat) (riemGSpec n x)),
+             ("sigma_hat", ofList (ofList ofRat) (sigmaHat n sg))])
+
 def handle : Handler := fun op j =>
   match op with
   | "c03.compare" => some (compareOp j)
@@ -117,6 +152,8 @@ def handle : Handler := fun op j =>
   | "c03.solve" => some (solveOp j)
   | "c03.eigh" => some (eighOp j)
   | "c03.kernel" => some (kernelOp j)
+  | "c03.passes" => some (passesOp j)
+  | "c03.riem" => some (riemOp j)
   | _ => none
 
 end Rsa.Drv.C03
